@@ -8,8 +8,8 @@ from ..oracles import floodfill as ff
 from ..oracles import topo
 
 PROP = "C16"
-RULE = ("Generator: (a) every raster over a 2-letter alphabet with <= 12 cells (quick) / <= 16 cells (thorough) and every raster over a 3-letter "
-        "alphabet (three values, or two values + NaN) with <= 9 cells, for every shape h x w incl. 1xN, Nx1, 1x1, neighbourhood 4 and 8; "
+RULE = ("Generator: (a) every raster over a 2-letter alphabet with <= 12 cells (quick) / <= 16 cells, one dtype <= 18 cells (thorough) and every raster over a 3-letter "
+        "alphabet (three values, or two values + NaN) with <= 9 cells (one variant <= 10 in thorough), for every shape h x w incl. 1xN, Nx1, 1x1, neighbourhood 4 and 8; "
         "(b) random rasters up to 24x24 built from topology constructors (spiral, nested rings, comb/U, serpentine/S, tree, checkerboard, "
         "diagonal stripes, diamonds, holes touching the border, staircase, noise) then cropped, flipped, padded and perturbed, mapped to "
         "well-separated integer values in int32/int64/uint32/float32/float64, NaN cells at densities none/one/some/half/all-but-one/one-whole-value, "
@@ -20,7 +20,7 @@ RULE = ("Generator: (a) every raster over a 2-letter alphabet with <= 12 cells (
 ASSUMPTIONS = ["values are integers with |v| <= 9999 (regions compares with isclose(rtol=1e-5, atol=1e-8); integers this small are never 'close')",
                "dtypes int32/int64/uint32/float32/float64 (labels are stored in the input dtype, narrower integer types cannot hold them)",
                "NaN only in float rasters; no +-inf", "numpy-backed 2-D DataArray"]
-BUDGET_S = {"quick": 150, "thorough": 900}
+BUDGET_S = {"quick": 240, "thorough": 900}
 
 DTYPES = ["float64", "int32", "float32", "int64", "uint32"]
 POOL_SIGNED = [0, 1, 2, 3, 5, -1, -7, 100, 255, 1000, 9999, -9999]
@@ -198,7 +198,7 @@ def _enum_shard(variant, chunks, body, sub, key):
 def enum_shards(tier, plan, body, sub, key):
     out = []
     for variant, max_cells, k in plan:
-        bins = topo.split_chunks(topo.enum_chunks(len(VARIANTS[variant][1]), max_cells), k)
+        bins = topo.split_chunks(topo.enum_chunks(len(VARIANTS[variant][1]), max_cells, chunk=(1 << 14) if max_cells <= 12 else (1 << 16)), k)
         for i, b in enumerate(bins):
             if b:
                 out.append(("enum_%s_le%d#%d" % (variant, max_cells, i), _enum_shard(variant, b, body, sub, key)))
@@ -209,7 +209,7 @@ def shards(tier):
     out = []
     if tier == "thorough":
         nrand, per, side = 16, 2500, 24
-        plan = [("bin_f64", 16, 8), ("bin_i32", 16, 8), ("bin_u32", 12, 1), ("ter_i64", 9, 2), ("ter_nan_f32", 9, 2),
+        plan = [("bin_f64", 18, 16), ("bin_i32", 16, 8), ("bin_u32", 12, 1), ("ter_i64", 10, 4), ("ter_nan_f32", 9, 2),
                 ("ter_f64", 9, 2), ("ter_nan_f64", 9, 2)]
     else:
         nrand, per, side = 8, 500, 24
@@ -224,8 +224,8 @@ def shards(tier):
     return out
 
 
-LEVEL_TEXT = ("Bounded-exhaustive plus randomised search: every 2-letter raster of every shape with <= 12 cells (quick) / <= 16 cells (thorough) and every "
-              "3-letter raster (incl. NaN as a letter) with <= 9 cells, both neighbourhoods, and thousands of random rasters up to 24x24 built from "
+LEVEL_TEXT = ("Bounded-exhaustive plus randomised search: every 2-letter raster of every shape with <= 12 cells (quick) / <= 16 cells, one dtype <= 18 cells (thorough) and every "
+              "3-letter raster (incl. NaN as a letter) with <= 9 cells (one variant <= 10 in thorough), both neighbourhoods, and thousands of random rasters up to 24x24 built from "
               "spiral / ring / comb / serpentine / checkerboard / diagonal / hole constructors over five dtypes, NaN densities, layouts and "
               "coordinate/attr variants, each compared with a flood-fill partition. Decides the property inside the enumerated spaces, samples it outside.")
 LEVEL_NOTE = ("Assumes small integer values (never isclose to each other) in int32/int64/uint32/float32/float64; oracle is an independent flood fill; "
